@@ -103,27 +103,26 @@ theorem allowOperand_elim {n : Node} (h : allowOperand n = true) :
   case const t v => exact .inr ⟨t, v, rfl⟩
   all_goals cases h
 
-theorem noSE_of_allowOperand (l : Node) (h : allowOperand l.rmCast1 = true) :
+theorem noSE_of_allowOperand (l : Node) (h : allowOperand l.rmCast = true) :
     hasSideEffect l = false := by
-  cases l
-  case cast e =>
-    rcases allowOperand_elim (n := e) h with ⟨y, rfl⟩ | ⟨t, v, rfl⟩ <;> simp only [hasSideEffect]
-  case id => simp only [hasSideEffect]
-  case const => simp only [hasSideEffect]
-  all_goals cases h
+  cases l with
+  | cast e =>
+    simp only [hasSideEffect]
+    exact noSE_of_allowOperand e (by simpa only [Node.rmCast] using h)
+  | id => simp only [hasSideEffect]
+  | const => simp only [hasSideEffect]
+  | _ => cases h
 
-theorem atomOf_of_allowOperand (l : Node) (h : allowOperand l.rmCast1 = true) :
+theorem atomOf_of_allowOperand (l : Node) (h : allowOperand l.rmCast = true) :
     ∃ a, atomOf l = some a := by
-  cases l
-  case cast e =>
-    rcases allowOperand_elim (n := e) h with ⟨y, rfl⟩ | ⟨t, v, rfl⟩ <;> exact ⟨_, rfl⟩
-  case id => exact ⟨_, rfl⟩
-  case const => exact ⟨_, rfl⟩
-  all_goals cases h
+  unfold atomOf
+  rcases allowOperand_elim h with ⟨y, hy⟩ | ⟨t, v, hv⟩
+  · rw [hy]; exact ⟨_, rfl⟩
+  · rw [hv]; exact ⟨_, rfl⟩
 
 theorem covN_binop_up (op : String) (l r : Node) (c : Cov) (h : covN (.binop op l r) = .ok c)
     (hu : c.up = 0) :
-    Gen.binOps.contains op = true ∧ allowOperand l.rmCast1 = true ∧ allowOperand r.rmCast1 = true := by
+    Gen.binOps.contains op = true ∧ allowOperand l.rmCast = true ∧ allowOperand r.rmCast = true := by
   simp only [covN, pure_eq_ok, Except.ok.injEq] at h
   split at h
   · rename_i hc
@@ -139,31 +138,26 @@ theorem binOps_cases {op : String} (h : Gen.binOps.contains op = true) :
     op = "*" ∨ op = "+" ∨ op = "-" := by
   simpa [Gen.binOps] using h
 
-theorem rmCast_of_allowRhs (r : Node) (h : allowRhs r.rmCast1 = true) : r.rmCast = r.rmCast1 := by
-  cases r
-  case cast e => cases e <;> first | rfl | cases h
-  all_goals rfl
-
-theorem covN_rmCast1 (r : Node) (a : Cov) (h : covN r = .ok a) :
-    ∃ a', covN r.rmCast1 = .ok a' ∧ a'.up = a.up := by
-  cases r
-  case cast e =>
+theorem covN_rmCast (r : Node) (a : Cov) (h : covN r = .ok a) :
+    ∃ a', covN r.rmCast = .ok a' ∧ a'.up = a.up := by
+  cases r with
+  | cast e =>
     simp only [covN_cast, bind_eq_ok, Except.ok.injEq] at h
     obtain ⟨a', ha', rfl⟩ := h
-    exact ⟨a', ha', rfl⟩
-  all_goals exact ⟨a, h, rfl⟩
+    simp only [Node.rmCast]
+    exact covN_rmCast e a' ha'
+  | _ => exact ⟨a, h, rfl⟩
 
 theorem desugar_assign_isSome (x : String) (r : Node) (a : Cov) (ha : covN r = .ok a)
-    (hu : a.up = 0) (hal : allowRhs r.rmCast1 = true)
+    (hu : a.up = 0) (hal : allowRhs r.rmCast = true)
     (h1 : noNestedUnaryAt (.assign "=" (.id x) r) = true)
     (h3 : noIncDecOfConstAt (.assign "=" (.id x) r) = true) :
     (desugar (.assign "=" (.id x) r)).isSome = true := by
-  obtain ⟨a', ha', hu'⟩ := covN_rmCast1 r a ha
+  obtain ⟨a', ha', hu'⟩ := covN_rmCast r a ha
   rw [hu] at hu'
-  have hr := rmCast_of_allowRhs r hal
   simp only [noNestedUnaryAt, noIncDecOfConstAt, rhsUnop?] at h1 h3
-  simp only [desugar, hr]
-  generalize r.rmCast1 = e at *
+  simp only [desugar]
+  generalize r.rmCast = e at *
   cases e
   case id => rfl
   case const => rfl
